@@ -13,7 +13,7 @@ def fn_hashes(src, report):
     """hash of the token stream of every VERIFY function in the expanded source (to recognise changed functions)"""
     import rlex
     toks, items = rlex.parse_crate(src)
-    want = set(report.get("verify", [])) | set(report.get("assume", []))
+    want = set(report.get("verify", [])) | set(report.get("assume", [])) | set(report.get("assume_default", []))
     out = {}
     for it in rlex.walk(items):
         if it.kind == "fn" and it.path in want:
